@@ -2,12 +2,15 @@ CONSTANTS
   Prefix = {"p1", "p2"}
   Src = {"s1", "s2", "o"}
   SrcRank <- cRank
+  ShardOf <- cShard
   Obs = "o"
+  Suppress = {}
   Cls = {"x", "y"}
   Reject = {}
   RejectSrc = {}
   SendMax = 1
   MaxChan = 2
+  OpKinds = {}
   LidMode = "abstract"
   Dev = {}
 SPECIFICATION Spec
